@@ -29,8 +29,9 @@ var atomicMethods = map[string]bool{"Load": true, "Store": true, "CompareAndSwap
 type site struct {
 	call   *ast.CallExpr
 	method string
-	loop   int // pc of the first instruction of the innermost enclosing `for {}`; -1: none
+	loop   int // pc of the first instruction of the innermost enclosing retry loop; -1: none
 	inCond bool
+	skip   bool // a second spelling of an instruction already listed (reload in a `for !CAS` body)
 }
 
 type walker struct {
@@ -39,6 +40,9 @@ type walker struct {
 	other    []string            // shared-memory constructs the instruction type cannot express
 	defs     map[string]ast.Expr // local variable -> the expression last assigned to it
 	soleExit map[*ast.IfStmt]bool
+	reload   map[*ast.ForStmt]int // `for !CAS { reload }` loops -> pc of the Load before them
+	pc       int                  // instructions listed so far
+	skipping bool                 // inside the body of a `for !CAS(x, ..) { x = Load() }` loop
 }
 
 // holderVar finds the variable bound to the first result of getOrDefault(...).
@@ -77,7 +81,10 @@ func (w *walker) expr(e ast.Expr, loop int, inCond bool) {
 		}
 		if isSel {
 			if id, ok := sel.X.(*ast.Ident); ok && id.Name == w.holder && atomicMethods[sel.Sel.Name] {
-				w.sites = append(w.sites, site{x, sel.Sel.Name, loop, inCond})
+				w.sites = append(w.sites, site{x, sel.Sel.Name, loop, inCond, w.skipping})
+				if !w.skipping {
+					w.pc++
+				}
 			} else if sel.Sel.Name == "Lock" || sel.Sel.Name == "Unlock" || sel.Sel.Name == "RLock" || sel.Sel.Name == "RUnlock" {
 				w.other = append(w.other, sel.Sel.Name)
 			}
@@ -113,9 +120,61 @@ func (w *walker) expr(e ast.Expr, loop int, inCond bool) {
 }
 
 func (w *walker) stmts(list []ast.Stmt, loop int) {
-	for _, s := range list {
+	for i, s := range list {
+		if i+1 < len(list) {
+			if f, ok := list[i+1].(*ast.ForStmt); ok && w.reloadLoop(s, f) {
+				// x := lh.Load(); for !lh.CompareAndSwap(x, F(x)) { x = lh.Load() }
+				// performs Load, CAS, (Load, CAS)*: the same atomic-operation sequence as
+				// for { x := lh.Load(); if lh.CompareAndSwap(x, F(x)) { break } }
+				w.reload[f] = w.pc
+			}
+		}
 		w.stmt(s, loop)
 	}
+}
+
+func (w *walker) holderCall(e ast.Expr, method string) *ast.CallExpr {
+	c, ok := e.(*ast.CallExpr)
+	if !ok {
+		return nil
+	}
+	sel, ok := c.Fun.(*ast.SelectorExpr)
+	if !ok || sel.Sel.Name != method {
+		return nil
+	}
+	if id, ok := sel.X.(*ast.Ident); !ok || id.Name != w.holder {
+		return nil
+	}
+	return c
+}
+
+// reloadLoop recognises  x := lh.Load()  followed by  for !lh.CompareAndSwap(x, ..) { x = lh.Load() }.
+func (w *walker) reloadLoop(pre ast.Stmt, f *ast.ForStmt) bool {
+	as, ok := pre.(*ast.AssignStmt)
+	if !ok || len(as.Lhs) != 1 || len(as.Rhs) != 1 || w.holderCall(as.Rhs[0], "Load") == nil {
+		return false
+	}
+	x, ok := as.Lhs[0].(*ast.Ident)
+	if !ok || f.Init != nil || f.Post != nil || f.Cond == nil || len(f.Body.List) != 1 {
+		return false
+	}
+	not, ok := f.Cond.(*ast.UnaryExpr)
+	if !ok || not.Op != token.NOT {
+		return false
+	}
+	cas := w.holderCall(not.X, "CompareAndSwap")
+	if cas == nil || len(cas.Args) != 2 {
+		return false
+	}
+	if old, ok := cas.Args[0].(*ast.Ident); !ok || old.Name != x.Name {
+		return false
+	}
+	re, ok := f.Body.List[0].(*ast.AssignStmt)
+	if !ok || re.Tok != token.ASSIGN || len(re.Lhs) != 1 || len(re.Rhs) != 1 || w.holderCall(re.Rhs[0], "Load") == nil {
+		return false
+	}
+	y, ok := re.Lhs[0].(*ast.Ident)
+	return ok && y.Name == x.Name
 }
 
 func (w *walker) stmt(s ast.Stmt, loop int) {
@@ -169,12 +228,19 @@ func (w *walker) stmt(s ast.Stmt, loop int) {
 	case *ast.BlockStmt:
 		w.stmts(x.List, loop)
 	case *ast.ForStmt:
+		if start, ok := w.reload[x]; ok {
+			w.expr(x.Cond, start, true) // the CAS: on failure back to the (re)Load
+			w.skipping = true           // the reload is the Load already listed at `start`
+			w.stmts(x.Body.List, start)
+			w.skipping = false
+			return
+		}
 		w.stmt(x.Init, loop)
 		if x.Cond != nil {
 			w.other = append(w.other, "for-with-condition")
 		}
 		w.markSoleExit(x)
-		w.stmts(x.Body.List, len(w.sites))
+		w.stmts(x.Body.List, w.pc)
 		w.stmt(x.Post, loop)
 	case *ast.RangeStmt:
 		w.other = append(w.other, "range")
@@ -210,6 +276,20 @@ func exits(n ast.Node) int {
 // the loop can be left (their body ends in break/return and holds every exit of the loop).
 func (w *walker) markSoleExit(f *ast.ForStmt) {
 	total := exits(f.Body)
+	// for { x := Load(); if !CAS(x, ..) { continue }; break }  — the negated guard
+	if n := len(f.Body.List); n >= 2 && total == 1 {
+		last := f.Body.List[n-1]
+		_, isRet := last.(*ast.ReturnStmt)
+		br, isBr := last.(*ast.BranchStmt)
+		if ifs, ok := f.Body.List[n-2].(*ast.IfStmt); ok && (isRet || (isBr && br.Tok == token.BREAK)) &&
+			ifs.Else == nil && ifs.Init == nil && len(ifs.Body.List) == 1 {
+			if not, ok := ifs.Cond.(*ast.UnaryExpr); ok && not.Op == token.NOT {
+				if c, ok := ifs.Body.List[0].(*ast.BranchStmt); ok && c.Tok == token.CONTINUE && c.Label == nil {
+					w.soleExit[ifs] = true
+				}
+			}
+		}
+	}
 	for _, s := range f.Body.List {
 		ifs, ok := s.(*ast.IfStmt)
 		if !ok || ifs.Else != nil || len(ifs.Body.List) == 0 {
@@ -253,6 +333,9 @@ func (w *walker) fnTag(e ast.Expr) string {
 func instrs(w *walker) []string {
 	var out []string
 	for _, st := range w.sites {
+		if st.skip {
+			continue
+		}
 		switch st.method {
 		case "Load":
 			out = append(out, "ILoad")
@@ -292,7 +375,8 @@ func main() {
 		if !ok || fn.Recv != nil || fn.Body == nil || (fn.Name.Name != "WithFields" && fn.Name.Name != "SetLevel") {
 			continue
 		}
-		w := &walker{holder: holderVar(fn), defs: map[string]ast.Expr{}, soleExit: map[*ast.IfStmt]bool{}}
+		w := &walker{holder: holderVar(fn), defs: map[string]ast.Expr{}, soleExit: map[*ast.IfStmt]bool{},
+			reload: map[*ast.ForStmt]int{}}
 		w.stmts(fn.Body.List, -1)
 		progs[fn.Name.Name] = instrs(w)
 		if *instrument {
